@@ -299,7 +299,7 @@ func c12Scenario(r *vf.Run, t *testing.T, id string, rng *rand.Rand) {
 			}
 			replay["mutation"] = op
 		case "adversary":
-			kind := rng.Intn(16)
+			kind := rng.Intn(18)
 			if silence {
 				kind = 99
 			}
@@ -360,6 +360,23 @@ func c12Scenario(r *vf.Run, t *testing.T, id string, rng *rand.Rand) {
 				e.P.Write(wire.Frame(nil, wire.TContinuation, wire.FEndHeaders, anyStream, []byte{0x88}, -1))
 			case 12:
 				e.P.Write(wire.Frame(nil, wire.THeaders, wire.FEndHeaders|wire.FEndStream, anyStream, []byte{0xff, 0xff, 0xff, 0xff, 0xff, 0xff, 0xff, 0xff, 0xff, 0xff, 0xff, 0x01}, -1))
+			case 16, 17:
+				// a response whose header block is not valid HPACK although every field in it decodes: a dynamic table size update
+				// after a field (16) or as the last thing in the block (17), RFC 7541 4.2. It is no response at all.
+				blk := e.P.EncodeBlock([]F{{Name: ":status", Value: "200"}, {Name: "x-rtag", Value: "undecodable"}}, nil)
+				blk = hpackref.AppendInt(blk, 0x20, 5, uint64([]int{0, 100, 4096}[rng.Intn(3)]))
+				if kind == 16 {
+					blk = append(blk, e.P.EncodeBlock([]F{{Name: "x-after", Value: "1"}}, nil)...)
+				}
+				e.P.Write(rt.Concat(rt.HeaderFrames(anyStream, blk, nil, -1, nil, true)))
+				rt.Wait()
+				for i, c := range calls {
+					if i < len(reqs) && streamOf[reqs[i].Tag] == anyStream {
+						if done, err, _ := c.Outcome(); done && err == nil {
+							fail("success-from-invalid-header-block", fmt.Sprintf("family adversary/a%d: request %s (stream %d) was reported successful although the header block the server sent for it is not valid HPACK (a table size update %s)", kind, reqs[i].Tag, anyStream, map[int]string{16: "after a field", 17: "at the end of the block"}[kind]))
+						}
+					}
+				}
 			case 13:
 				e.P.Write(wire.Frame(nil, wire.TPing, 0, 0, make([]byte, 7), -1))
 			case 14, 15:
